@@ -83,6 +83,27 @@ func runC16(c *eng.Ctx) {
 		}
 	})
 
+	c.Rule("RESET", "series/metric.BrokerRowFlatDecoder", func() {
+		resetRule(c, resetSpec{T: "series/metric.BrokerRowFlatDecoder", Entries: []string{"series/metric.BrokerRowFlatDecoder.DecodeTo"},
+			Ctors: []string{"series/metric.NewBrokerRowFlatDecoder"},
+			Exempt: map[string]string{
+				"size":    "set by HasNext() for every row before DecodeTo reads it",
+				"reader":  "the request's input stream, set on acquisition (checked below) and consumed across rows by design",
+				"readLen": "cumulative byte counter by design; zeroed when the decoder is released to the pool (checked below)",
+			}})
+		n := c.Fn("series/metric.NewBrokerRowFlatDecoder")
+		rel := false
+		for _, cl := range n.AnonFuncs {
+			if len(c.P.Sites(cl, eng.StoreField("series/metric.BrokerRowFlatDecoder.readLen"))) > 0 && len(c.P.Sites(cl, eng.StoreField("series/metric.BrokerRowFlatDecoder.reader"))) > 0 {
+				rel = true
+			}
+		}
+		c.Check(rel, "release-clears-reader-and-counter", nil, n, "releasing the decoder to the pool clears its reader and read counter", "")
+		for _, fld := range []string{"namespace", "reader", "enrichedTags", "limits"} {
+			c.Check(c.P.MustPass(n, eng.StoreField("series/metric.BrokerRowFlatDecoder."+fld), 0), "acquire-sets:"+fld, nil, n, "acquiring a (possibly pooled) decoder sets "+fld+" for this request", "")
+		}
+	})
+
 	// ---- 2. validate -> dedup -> everything else -----------------------------------------------------------------------------
 	c.Rule("ORDER", cvtT+".MarshalProtoMetricV1{validate<dedup<tags}", func() {
 		m := c.Fn(cvtT + ".MarshalProtoMetricV1")
